@@ -6,7 +6,7 @@ import json, os, re
 from collections import Counter
 
 PKG = "discovery"
-HARNESS = ["discovery/zz_verif_c16_test.go"]
+HARNESS = ["discovery/zz_verif_c16_test.go", "discovery/zz_verif_c16node_test.go"]
 WIRE_PKG = "discovery/api/server"
 WIRE_HARNESS = ["discovery/api/server/zz_verif_c16_wire_test.go"]
 HARNESSES = [(PKG, HARNESS, "c16"), (WIRE_PKG, WIRE_HARNESS, "c16wire")]
@@ -182,6 +182,200 @@ def wire_leg(ctx):
     ctx.cov["wire_distribution"] = {f"{a}/{b}": v for (a, b), v in sorted(kinds.items())}
 
 
+NODE_LINE = re.compile(r"^nreg (.*?) k=(\S+)((?: \| \S* seed=\S+ ts=\d+ \[.*?\])*)$")
+NODE_LIST = re.compile(r" \| (\S*) seed=(\S+) ts=(\d+) \[(.*?)\]")
+
+
+def node_leg(ctx, binary, replay=None):
+    """NODE leg: real Module.Configure on generated definition directories + server ids, then real Register / Get / Search
+    for served, known and unknown list ids with X-Forwarded-Host values, against NutsModel/C16/Node.lean; direct oracle on
+    the implementation's own lines (what was loaded vs what the files say; which list got the row; which definition decided)"""
+    out = os.path.join(ctx.scratch, "node")
+    env = {"TMPDIR": ctx.scratch, "VERIF_NODE_CONFIGS": 400 if ctx.thorough else 36, "VERIF_NODE_OPS": 14}
+    seed_env = None
+    if replay:
+        seed_env, env["VERIF_NODE_ONLY"] = replay["seed"], replay["cfg"]
+    os.makedirs(out, exist_ok=True)
+    e = dict(env)
+    if seed_env is not None:
+        e["VERIF_SEED"] = seed_env
+    rc, log, out = ctx.run_harness(binary, "TestVerifC16Node", e, outdir=out, timeout=1500)
+    if rc != 0:
+        ctx.oblige("node-harness-runs", False, log[-1200:])
+        return
+    ops_p, impl_p, model_p = (os.path.join(out, x) for x in ("nodeops.jsonl", "nodeimpl.out", "nodemodel.out"))
+    ok, err = ctx.model("C16", ops_p, model_p)
+    ctx.oblige("node-model-driver-runs", ok, err[-500:])
+    impl, model, bad = ctx.compare(impl_p, model_p)
+    ops_txt = ctx.read_lines(ops_p)
+    ops = [json.loads(x) if x else {} for x in ops_txt]
+    fails, first = Counter(), {}
+    dist = Counter()
+    start = 0
+    conf = None
+
+    def flag(sig, what, i):
+        fails[sig] += 1
+        if sig not in first:
+            first[sig] = True
+            ctx.violation("C16:node:" + sig, what + f" (configuration starting at op {start}, failing op {i}: {impl[i][:300]}; re-run: VERIF_SEED={ops[start].get('seed')} VERIF_NODE_ONLY={ops[start].get('cfg')})",
+                          "node-" + re.sub(r"[^A-Za-z0-9_.-]+", "-", sig) + ".jsonl", "\n".join(ops_txt[start:i + 1]) + "\n")
+
+    def parse_lists(txt):
+        res = {}
+        for m in NODE_LIST.finditer(txt):
+            res[m.group(1)] = {"seed": m.group(2), "ts": int(m.group(3)), "rows": parse_rows(m.group(4), True)}
+        return res
+
+    lists = {}
+    for i, line in enumerate(impl):
+        op = ops[i] if i < len(ops) else {}
+        kind = op.get("op")
+        if kind == "nconf":
+            start, lists = i, {}
+            ents = op.get("entries", [])
+            elig = [e for e in ents if not e["isDir"] and e["name"].endswith(".json")]
+            defects = [e for e in elig if e["intent"] in ("duplicate", "invalid", "dangling", "link-to-dir")]
+            valid = {e["wantId"]: e for e in elig if e["intent"] == "valid"}
+            cls = line.split()[1] if len(line.split()) > 1 else "?"
+            dist["nconf:" + cls + ":" + op.get("dirKind", "?")] += 1
+            conf = None
+            if cls == "ok":
+                m = re.match(r"^nconf ok all=\[(.*?)\] server=\[(.*?)\]$", line)
+                if not m:
+                    flag("unparsable-line", "Configure line does not parse", i)
+                    continue
+                allm = dict(x.split("=", 1) for x in m.group(1).split())
+                srv = dict(x.split("=", 1) for x in m.group(2).split())
+                if op["dirKind"] == "directory":
+                    if defects:
+                        flag("configure-accepted-defective-directory", f"Configure succeeded although the directory holds {[(e['name'], e['intent']) for e in defects]}", i)
+                    want = {k: f"{k}:{e['wantMax']}:{','.join(e.get('wantMethods') or []) or '-'}" for k, e in valid.items()}
+                    if allm != want:
+                        flag("loaded-definitions-differ-from-files", f"loaded {allm}, the eligible files define {want}", i)
+                    unknown = [x for x in op["serverIds"] if x not in valid]
+                    if unknown:
+                        flag("configure-accepted-unknown-server-id", f"Configure succeeded although server ids {unknown} have no definition", i)
+                    if set(srv) != set(op["serverIds"]) or any(v != k for k, v in srv.items()):
+                        flag("served-lists-differ-from-configured-ids", f"serves {srv}, configured {op['serverIds']}", i)
+                elif op["dirKind"] in ("unset", "default-missing"):
+                    if allm or srv:
+                        flag("definitions-from-nowhere", "definitions loaded although no directory is configured / the default one is missing", i)
+                else:
+                    flag("configure-accepted-unusable-directory", f"Configure succeeded on a {op['dirKind']} definitions directory", i)
+                conf = {"all": {k: {"id": k, "maxValidity": e["wantMax"], "didMethods": e.get("wantMethods") or []} for k, e in valid.items()} if op["dirKind"] == "directory" else {},
+                        "served": set(srv), "endpoint": {e["parsed"]["id"]: e["parsed"]["endpoint"] for e in elig if e.get("parsed")},
+                        "ephost": {e["parsed"]["id"]: e["parsed"].get("endpointHost") for e in elig if e.get("parsed")}}
+            else:
+                reason = defects or [x for x in op["serverIds"] if x not in valid] or op["dirKind"] in ("missing", "plain-file", "missing-parent")
+                if not reason:
+                    flag("configure-refused-sound-configuration", f"Configure failed with {cls} on a directory without defects", i)
+            continue
+        if conf is None:
+            continue
+        sid = op.get("sid")
+        if kind in ("nregister", "nget") and sid in conf["all"] and sid not in conf["served"]:
+            # a forwarding cycle: the request came with X-Forwarded-Host naming the very host the list's endpoint is on
+            f = op.get("fwd") or {}
+            is_cycle = bool(f.get("header")) and f.get("host") is not None and conf["ephost"].get(sid) is not None and f["host"] == conf["ephost"][sid]
+            word = line.split()[1]
+            if word == "cycle" and not is_cycle:
+                flag("cycle-reported-without-a-cycle", f"{kind}({sid}) with forwarded host {f} was refused as a cycle; the endpoint is {conf['endpoint'].get(sid)}", i)
+            if word.startswith("fwd:") and is_cycle:
+                flag("forwarding-cycle-not-detected", f"{kind}({sid}) with forwarded host {f} was forwarded to {conf['endpoint'].get(sid)}", i)
+        if kind == "nregister":
+            m = NODE_LINE.match(line)
+            if not m:
+                flag("unparsable-line", "Register line does not parse", i)
+                continue
+            outc, now_lists = m.group(1), parse_lists(m.group(3))
+            dist["nregister:" + op.get("class", "?") + ":" + ("served" if sid in conf["served"] else "known" if sid in conf["all"] else "unknown") + ":" + outc.split(" ")[0].split(":http")[0]] += 1
+            prev = lists or {k: {"seed": "-", "ts": 0, "rows": []} for k in now_lists}
+            changed = [k for k in now_lists if now_lists[k] != prev.get(k)]
+            vp, now = op["vp"], op["now"]
+            if outc.startswith("panic"):
+                flag("unexpected-outcome-panic", f"Register panicked: {outc}", i)
+            if outc == "ok":
+                if sid not in conf["served"]:
+                    flag("registered-on-a-list-the-node-does-not-serve", f"Register({sid}) accepted, served lists are {sorted(conf['served'])}", i)
+                else:
+                    d = conf["all"][sid]
+                    why = acceptable(vp, d, now, prev.get(sid, {"rows": []})["rows"])
+                    if why:
+                        flag("listed-unsound-" + re.sub(r"[^a-z]+", "-", why[0].lower()), f"list {sid} accepted a registration that is " + "; ".join(why) + f" (by the definition FILE of {sid}: {d})", i)
+                    new = [r for r in now_lists.get(sid, {"rows": []})["rows"] if r["ts"] == now_lists[sid]["ts"]]
+                    if now_lists[sid]["ts"] != prev.get(sid, {"ts": 0})["ts"] + 1 or len(new) != 1 or new[0]["id"] != vp.get("id") or new[0]["subject"] != vp["signer"][0]:
+                        flag("accepted-row-not-on-its-list", f"the accepted presentation is not the newest row of list {sid}", i)
+                    for k in changed:
+                        if k != sid:
+                            p, c = prev[k], now_lists[k]
+                            gone = [r for r in p["rows"] if r not in c["rows"]]
+                            if c["seed"] != p["seed"] or c["ts"] != p["ts"] or any(r not in p["rows"] for r in c["rows"]) or any(r["exp"] > now - ops[start]["t0"] + 2 for r in gone):
+                                flag("registration-changed-another-list", f"Register({sid}) changed list {k} beyond pruning expired rows", i)
+            else:
+                if changed:
+                    flag("refused-or-forwarded-request-changed-a-list", f"Register({sid}) ended with {outc} and changed lists {changed}", i)
+                if outc.startswith("fwd:"):
+                    if sid in conf["served"] or sid not in conf["all"]:
+                        flag("forwarded-a-request-it-should-not", f"Register({sid}) was forwarded ({outc})", i)
+                    elif outc != "fwd:register " + conf["endpoint"].get(sid, "?"):
+                        flag("forwarded-to-the-wrong-endpoint", f"Register({sid}) went to {outc}, the definition says {conf['endpoint'].get(sid)}", i)
+                if outc == "not-found" and sid in conf["all"]:
+                    flag("known-service-reported-unknown", f"Register({sid}) -> not found", i)
+                if sid not in conf["all"] and outc != "not-found":
+                    flag("unknown-service-not-refused", f"Register({sid}) -> {outc}", i)
+                if sid in conf["served"] and not acceptable(vp, conf["all"][sid], now - 3, prev.get(sid, {"rows": []})["rows"]) and outc != "err:exists" \
+                        and not any(r["subject"] == vp["signer"][0] and r["id"] == vp.get("id") for r in prev.get(sid, {"rows": []})["rows"]):
+                    flag("acceptable-registration-refused", f"list {sid} refused ({outc}) a registration that satisfies its definition", i)
+            lists = now_lists
+        elif kind == "nget":
+            dist["nget:" + ("served" if sid in conf["served"] else "known" if sid in conf["all"] else "unknown") + ":" + line.split()[1].split(":http")[0]] += 1
+            m = re.match(r"^nget rows seed=(\S+) ts=(\d+) \[(.*?)\] k=", line)
+            if m:
+                after = op.get("ts") if op.get("ts") is not None else 0
+                cur = lists.get(sid, {"seed": "-", "ts": 0, "rows": []})
+                want = sorted((r["ts"], r["id"]) for r in cur["rows"] if r["ts"] > after)
+                got = sorted((int(x.split(":", 1)[0]), x.split(":", 1)[1]) for x in m.group(3).split())
+                if sid not in conf["served"]:
+                    flag("get-answered-for-a-list-it-does-not-serve", f"Get({sid}) answered locally", i)
+                elif got != want or int(m.group(2)) != cur["ts"] or m.group(1) != cur["seed"]:
+                    flag("get-result-wrong", f"Get({sid}, {op.get('ts')}) returned {got} ts={m.group(2)}, the list holds {want} ts={cur['ts']}", i)
+            elif line.startswith("nget fwd:"):
+                after = op.get("ts") if op.get("ts") is not None else 0
+                if sid in conf["served"] or sid not in conf["all"] or not line.startswith(f"nget fwd:get {conf['endpoint'].get(sid, '?')} {after} "):
+                    flag("get-forwarded-wrongly", f"Get({sid}, {op.get('ts')}) -> {line}", i)
+            elif line.startswith("nget not-found"):
+                if sid in conf["all"]:
+                    flag("known-service-reported-unknown", f"Get({sid}) -> not found", i)
+            elif not line.startswith("nget cycle"):
+                flag("get-failed", f"Get({sid}) -> {line}", i)
+        elif kind == "nsearch":
+            dist["nsearch:" + ("known" if sid in conf["all"] else "unknown")] += 1
+            if (line == "nsearch not-found") != (sid not in conf["all"]):
+                flag("search-service-check-wrong", f"Search({sid}) -> {line}", i)
+            elif sid in conf["all"]:
+                cur = lists.get(sid, {"rows": []})
+                got = set(line[len("nsearch ["):-1].split())
+                if not got <= {r["id"] for r in cur["rows"] if r["validated"]}:
+                    flag("search-returned-row-of-another-list", f"Search({sid}) -> {line}, list holds {[r['id'] for r in cur['rows']]}", i)
+    ctx.oblige("oracle:node(configure/route/lists)(impl)", not fails, "; ".join(f"{k} x{v}" for k, v in fails.items())[:600])
+    if bad:
+        i = bad[0]
+        k = i
+        while k > 0 and ops[k].get("op") != "nconf":
+            k -= 1
+        detail = f"first differing line {i}\nop   : {ops_txt[i][:700] if i < len(ops_txt) else None}\nimpl : {impl[i][:600] if i < len(impl) else None}\nmodel: {model[i][:600] if i < len(model) else None}"
+        ctx.oblige("correspondence:node-model=impl", False, f"{len(bad)} of {len(impl)} lines differ; " + detail[:900])
+        if not fails:
+            with open(os.path.join(ctx.replay_dir(), "node-correspondence.jsonl"), "w") as f:
+                f.write("\n".join(ops_txt[k:i + 1]) + "\n")
+            ctx.unproved(["correspondence C16 node leg (nodemodel.out != nodeimpl.out)"], detail + f"\nreplay ops: {ctx.replay_dir()}/node-correspondence.jsonl")
+    else:
+        ctx.oblige("correspondence:node-model=impl", True, f"{len(impl)} lines equal")
+    ctx.cov["node_ops"] = len(impl)
+    ctx.cov["node_distribution"] = dict(sorted(dist.items()))
+
+
 def run(ctx):
     ctx.facts()
     thms = ctx.build_and_audit(["NutsProofs.Props.C16", "NutsProofs.Props.C16Node"])
@@ -208,6 +402,18 @@ def run(ctx):
         ctx.oblige("harness-builds", False, ctx.harness_error[-1500:])
         return
     ctx.oblige("harness-builds", True)
+    node_replay = None
+    if ctx.replay:
+        try:
+            first_op = json.loads(open(ctx.replay).readline())
+            if first_op.get("op") == "nconf":
+                node_replay = {"seed": first_op.get("seed", ctx.seed), "cfg": first_op.get("cfg", 1)}
+        except (OSError, ValueError):
+            pass
+    if node_replay or not ctx.replay:
+        node_leg(ctx, binary, node_replay)
+    if node_replay:
+        return
     env = {"TMPDIR": ctx.scratch}
     if ctx.replay:
         env["VERIF_REPLAY"] = os.path.abspath(ctx.replay)
